@@ -257,24 +257,24 @@ Qed.
 
 (** *** [bdd.var(name)] *)
 Theorem a_var_dyn v a r a' :
-  AInvD a → is_Some (vars (mgr a) !! v) → a_var v a = (r, a') →
+  AInvD a → max_nodes (mgr a) = None → is_Some (vars (mgr a) !! v) → a_var v a = (r, a') →
   dyn_out a (fun x s' => ∀ ρ, denv s' x ρ = ρ v) r a'.
 Proof.
-  intros HA Hd. apply lift_wrap_dyn; [done|apply (stable_eq (fun ρ => ρ v))|].
+  intros HA Hmx Hd. apply lift_wrap_dyn; [done|apply (stable_eq (fun ρ => ρ v))|].
   intros r0 s' E. destruct HA as (HI&Hr&HC&_).
-  exact (var_dynamic _ _ v r0 s' sifting_ok'_holds HI HC Hr Hd E).
+  exact (var_dynamic _ _ v r0 s' sifting_ok'_holds HI HC Hr Hmx Hd E).
 Qed.
 
 (** *** [bdd.ite(g, u, v)]: a dead handle is a [KeyError] before anything *)
 Theorem a_ite_dyn hg hu hv a r a' :
-  AInvD a → a_ite hg hu hv a = (r, a') →
+  AInvD a → max_nodes (mgr a) = None → a_ite hg hu hv a = (r, a') →
   (r = Err EKey ∧ a' = a ∧
    (handles a !! hg = None ∨ handles a !! hu = None ∨ handles a !! hv = None)) ∨
   ∃ g u v, handles a !! hg = Some g ∧ handles a !! hu = Some u ∧ handles a !! hv = Some v ∧
     dyn_out a (fun x s' => ∀ ρ, denv s' x ρ =
                  if denv (mgr a) g ρ then denv (mgr a) u ρ else denv (mgr a) v ρ) r a'.
 Proof.
-  intros HA. pose proof HA as (HI&Hr&HC&Hv&_). unfold a_ite. rewrite node_of_bind.
+  intros HA Hmx. pose proof HA as (HI&Hr&HC&Hv&_). unfold a_ite. rewrite node_of_bind.
   destruct (handles a !! hg) as [g|] eqn:Eg; [|intros [= <- <-]; left; auto].
   rewrite check_in_bind by (by apply (Hv hg)). rewrite node_of_bind.
   destruct (handles a !! hu) as [u|] eqn:Eu; [|intros [= <- <-]; left; auto].
@@ -284,36 +284,38 @@ Proof.
   split; [done|]. split; [done|]. split; [done|]. revert H.
   apply lift_wrap_dyn; [done|apply (stable_eq (fun ρ => if denv (mgr a) g ρ then _ else _))|].
   intros r0 s' E.
-  exact (ite_dynamic _ _ g u v r0 s' sifting_ok'_holds HI HC Hr (Hv _ _ Eg) (Hv _ _ Eu)
+  exact (ite_dynamic _ _ g u v r0 s' sifting_ok'_holds HI HC Hr Hmx (Hv _ _ Eg) (Hv _ _ Eu)
            (Hv _ _ Ev) (held_handle a _ _ Eg) (held_handle a _ _ Eu) (held_handle a _ _ Ev) E).
 Qed.
 
 (** *** [bdd.quantify(u, qvars, forall)], [bdd.exist], [bdd.forall] *)
 Theorem a_quantify_dyn hu qvars fa a r a' :
-  AInvD a → Forall (fun k => is_Some (vars (mgr a) !! k)) qvars →
+  AInvD a → max_nodes (mgr a) = None →
+  Forall (fun k => is_Some (vars (mgr a) !! k)) qvars →
   a_quantify hu qvars fa a = (r, a') →
   (r = Err EKey ∧ a' = a ∧ handles a !! hu = None) ∨
   ∃ u, handles a !! hu = Some u ∧
     dyn_out a (fun x s' => ∀ ρ, denv s' x ρ = true ↔
                  qsemv (mgr a) fa (list_to_set qvars) u ρ) r a'.
 Proof.
-  intros HA Hq. pose proof HA as (HI&Hr&HC&Hv&_). unfold a_quantify. rewrite node_of_bind.
+  intros HA Hmx Hq. pose proof HA as (HI&Hr&HC&Hv&_). unfold a_quantify. rewrite node_of_bind.
   destruct (handles a !! hu) as [u|] eqn:Eu; [|intros [= <- <-]; left; auto].
   rewrite check_in_bind by (by apply (Hv hu)). intros H. right. exists u. split; [done|].
   revert H. apply lift_wrap_dyn; [done|apply stable_iff|]. intros r0 s' E.
-  exact (quantify_dynamic _ _ u qvars fa r0 s' sifting_ok'_holds HI HC Hr (Hv _ _ Eu)
+  exact (quantify_dynamic _ _ u qvars fa r0 s' sifting_ok'_holds HI HC Hr Hmx (Hv _ _ Eu)
            (held_handle a _ _ Eu) Hq E).
 Qed.
 
 (** *** [bdd.cube(dvars)] *)
 Theorem a_cube_dyn d a r a' :
-  AInvD a → Forall (fun p => is_Some (vars (mgr a) !! p.1)) d →
+  AInvD a → max_nodes (mgr a) = None →
+  Forall (fun p => is_Some (vars (mgr a) !! p.1)) d →
   a_cube d a = (r, a') →
   dyn_out a (fun x s' => ∀ ρ, denv s' x ρ = true ↔ ∀ v b, (v, b) ∈ d → ρ v = b) r a'.
 Proof.
-  intros HA Hd. apply lift_wrap_dyn; [done|apply stable_iff|].
+  intros HA Hmx Hd. apply lift_wrap_dyn; [done|apply stable_iff|].
   intros r0 s' E. destruct HA as (HI&Hr&HC&_).
-  exact (cube_dynamic _ _ d r0 s' sifting_ok'_holds HI HC Hr Hd E).
+  exact (cube_dynamic _ _ d r0 s' sifting_ok'_holds HI HC Hr Hmx Hd E).
 Qed.
 
 (** *** [bdd.apply(op, u, v, w)] and the operators of [Function]
@@ -339,39 +341,40 @@ Proof.
 Qed.
 
 Theorem f_apply_dyn op hu hv a r a' f u v :
-  AInvD a → handles a !! hu = Some u → olook a hv v →
+  AInvD a → max_nodes (mgr a) = None → handles a !! hu = Some u → olook a hv v →
   op ∈ py_vocab → conn_sem op = Some f → arity_ok op v None = true →
   f_apply op hu hv a = (r, a') →
   dyn_out a (fun x s' => ∀ ρ, denv s' x ρ =
                f (denv (mgr a) u ρ) (odenv (mgr a) v ρ) false) r a'.
 Proof.
-  intros HA Eu Ev Hop Hf Har. pose proof HA as (HI&Hr&HC&Hv&_).
+  intros HA Hmx Eu Ev Hop Hf Har. pose proof HA as (HI&Hr&HC&Hv&_).
   destruct (olook_valid a hv v HA Ev) as [Hvv Hvr].
   unfold f_apply. rewrite node_of_bind, Eu, onode_of_bind.
   assert (Hgo : (r0 <- lift (apply op u v None) ;; wrap r0) a = (r, a') →
     dyn_out a (fun x s' => ∀ ρ, denv s' x ρ =
                f (denv (mgr a) u ρ) (odenv (mgr a) v ρ) false) r a').
   { apply lift_wrap_dyn; [done|apply (stable_eq (fun ρ => f _ _ false))|]. intros r0 s' E.
-    exact (apply_dynamic _ _ op u v None r0 s' f sifting_ok'_holds HI HC Hr Hop Hf
+    exact (apply_dynamic _ _ op u v None r0 s' f sifting_ok'_holds HI HC Hr Hmx Hop Hf
              (Hv _ _ Eu) Hvv I Har (held_handle a _ _ Eu) Hvr I E). }
   destruct hv as [h|], v as [v|]; try done. cbn in Ev. by rewrite Ev.
 Qed.
 
 Theorem a_apply_dyn op hu hv hw a r a' f u v w :
-  AInvD a → handles a !! hu = Some u → olook a hv v → olook a hw w →
+  AInvD a → max_nodes (mgr a) = None →
+  handles a !! hu = Some u → olook a hv v → olook a hw w →
   op ∈ py_vocab → conn_sem op = Some f → arity_ok op v w = true →
   a_apply op hu hv hw a = (r, a') →
   dyn_out a (fun x s' => ∀ ρ, denv s' x ρ =
                f (denv (mgr a) u ρ) (odenv (mgr a) v ρ) (odenv (mgr a) w ρ)) r a'.
 Proof.
-  intros HA Eu Ev Ew Hop Hf Har. pose proof HA as (HI&Hr&HC&Hv&_).
+  intros HA Hmx Eu Ev Ew Hop Hf Har. pose proof HA as (HI&Hr&HC&Hv&_).
   destruct (olook_valid a hv v HA Ev) as [Hvv Hvr].
   destruct (olook_valid a hw w HA Ew) as [Hwv Hwr].
   assert (Hgo : (r0 <- lift (apply op u v w) ;; wrap r0) a = (r, a') →
     dyn_out a (fun x s' => ∀ ρ, denv s' x ρ =
                f (denv (mgr a) u ρ) (odenv (mgr a) v ρ) (odenv (mgr a) w ρ)) r a').
   { apply lift_wrap_dyn; [done|apply (stable_eq (fun ρ => f _ _ _))|]. intros r0 s' E.
-    exact (apply_dynamic _ _ op u v w r0 s' f sifting_ok'_holds HI HC Hr Hop Hf
+    exact (apply_dynamic _ _ op u v w r0 s' f sifting_ok'_holds HI HC Hr Hmx Hop Hf
              (Hv _ _ Eu) Hvv Hwv Har (held_handle a _ _ Eu) Hvr Hwr E). }
   unfold a_apply. rewrite node_of_bind, Eu. rewrite check_in_bind by (by apply (Hv hu)).
   destruct hv as [h1|], v as [v|]; try done; destruct hw as [h2|], w as [w|]; try done;
@@ -442,18 +445,18 @@ Proof.
 Qed.
 
 Theorem a_let_dyn d hu a r a' u d' :
-  AInvD a → handles a !! hu = Some u → alet_empty d = false →
+  AInvD a → max_nodes (mgr a) = None → handles a !! hu = Some u → alet_empty d = false →
   alet_nodes a d d' → alet_declared (mgr a) d →
   a_let d hu a = (r, a') →
   dyn_out a (fun x s' => ∀ ρ, denv s' x ρ = denv (mgr a) u (let_sem (mgr a) d' ρ)) r a'.
 Proof.
-  intros HA Eu Hne Hn Hd. pose proof HA as (HI&Hr&HC&Hv&_).
+  intros HA Hmx Eu Hne Hn Hd. pose proof HA as (HI&Hr&HC&Hv&_).
   assert (Hgo : let_ok (hledger a) (mgr a) d' →
     (r0 <- lift (let_ d' u) ;; wrap r0) a = (r, a') →
     dyn_out a (fun x s' => ∀ ρ, denv s' x ρ = denv (mgr a) u (let_sem (mgr a) d' ρ)) r a').
   { intros Hok. apply lift_wrap_dyn; [done|apply (stable_eq (fun ρ => denv _ _ _))|].
     intros r0 s' E.
-    exact (let_dynamic _ _ d' u r0 s' sifting_ok'_holds HI HC Hr (Hv _ _ Eu)
+    exact (let_dynamic _ _ d' u r0 s' sifting_ok'_holds HI HC Hr Hmx (Hv _ _ Eu)
              (held_handle a _ _ Eu) Hok E). }
   unfold a_let. rewrite node_of_bind, Eu. rewrite check_in_bind by (by apply (Hv hu)).
   destruct d as [[|p l]|[|p l]|[|p l]]; try discriminate Hne;
@@ -708,7 +711,7 @@ Proof.
   intros a r a' ((HI&Hr&HC&Hv&Hf)&Ht). unfold lift.
   destruct (collect_garbage None (mgr a)) as [r0 s'] eqn:E. intros [= <- <-].
   destruct (collect_garbage_total None _ _ r0 s' HI HC E)
-    as (HI'&HC'&_&El&(_&Erc&_&Etp)&_&[(->&_)|(_&_&Hno)]); [|by destruct Hno].
+    as (HI'&HC'&_&El&(_&Erc&_&Etp&_)&_&[(->&_)|(_&_&Hno)]); [|by destruct Hno].
   assert (Hk' : ∀ h u, handles a !! h = Some u →
             valid s' u ∧ ∀ ρ, denv s' u ρ = denv (mgr a) u ρ).
   { intros h u Hu. destruct (Hv h u Hu) as [Hu0 Hus].
@@ -725,7 +728,7 @@ Lemma adsafe_declare vs : adsafe (lift (declare vs)).
 Proof.
   intros a r a' ((HI&Hr&HC&Hv&Hf)&Ht). unfold lift.
   destruct (declare vs (mgr a)) as [r0 s'] eqn:E. intros [= <- <-].
-  destruct (declare_total _ _ _ _ HI E) as (->&HI'&(_&Erc&_&Etp)&HC'&Hk).
+  destruct (declare_total _ _ _ _ HI E) as (->&HI'&(_&Erc&_&Etp&_)&HC'&Hk).
   split; [|done]. split; [|split; [|done]].
   - split; [|cbn; congruence]. split; [done|]. split; [cbn; congruence|].
     split; [by apply HC'|]. split; [|done]. intros h u Hu. by apply Hk, (Hv h).
@@ -755,7 +758,7 @@ Proof.
   change (mgr (a <| handles ::= delete h |>)) with (mgr a).
   destruct (decref u (mgr a)) as [r0 s'] eqn:E. intros [= <- <-].
   pose proof (Hv h u Eu) as Hu.
-  destruct (decref_total _ _ _ _ HI E) as (HI'&He&(_&Erc&_&Etp)&Hok&_).
+  destruct (decref_total _ _ _ _ HI E) as (HI'&He&(_&Erc&_&Etp&_)&Hok&_).
   destruct (Hok Hu) as [-> HC']. left. exists u.
   split; [done|]. split; [done|]. split; [|done].
   split; [|cbn; congruence]. split; [done|]. split; [cbn; congruence|]. split.
